@@ -239,6 +239,21 @@ def corpus():
                       _call(0, "where", _crit("a")), _call(0, "limit", {"k": "int", "v": 5})]
             cs.append({"steps": [["new", "mutable:%s@%s" % (kind, ep)]] + calls, "theme": "twin", "twin": True, "repeats": []})
         cs.append({"steps": [], "probe": kind, "theme": "probe", "twin": False, "repeats": []})
+    # DDL targets: an aliased / FOR-clause Table shared with a SELECT is handed to CREATE TABLE, FOREIGN KEY, CREATE INDEX ON
+    # and DROP TABLE (they store a stripped COPY, 70f811c): the caller's Table and the SELECT must stay as they are
+    ddl = [["new", "Table:t1"], _call(0, "as_", _s("x")),                                                        # 1 = t1 AS x
+           _call(0, "for_", {"k": "system_time", "a": "2020-01-01", "b": None}),                              # 2 = t1 FOR SYSTEM_TIME
+           ["new", "QueryBuilder"], _call(3, "from_", _r(1)), _call(4, "select", {"k": "field", "n": "a", "t": _r(1)}),   # 5 uses t1 AS x
+           ["new", "QueryBuilder"], _call(6, "from_", _r(2)), _call(7, "select", _s("b"))]                     # 8 uses the FOR table
+    for t_ in (1, 2):
+        cs.append({"steps": ddl + [["new", "CreateQueryBuilder"], _call(9, "create_table", _r(t_)), _call(10, "columns", _s("a")),
+                                   ["call", 11, "foreign_key", [{"k": "list", "v": [_s("a")]}, _r(t_), {"k": "list", "v": [_s("id")]}], {}],
+                                   _call(9, "create_table", _r(0))], "theme": "corpus", "twin": False, "repeats": []})
+        cs.append({"steps": ddl + [["new", "CreateIndexBuilder"], _call(9, "create_index", _s("ix")), _call(10, "columns", _s("a")),
+                                   _call(11, "on", _r(t_)), _call(11, "on", _r(0))], "theme": "corpus", "twin": False, "repeats": []})
+        cs.append({"steps": ddl + [["new", "DropQueryBuilder"], _call(9, "drop_table", _r(t_)), _call(9, "drop_table", _r(0)),
+                                   ["new", "ClickHouseDropQueryBuilder"], _call(12, "drop_table", _r(t_))],
+                   "theme": "corpus", "twin": False, "repeats": []})
     # two immutable=False builders of one class side by side: updating one must not show in the other (class-level state)
     from harness.c01.world import QUERY_CLASSES as _QC
     extra = {"ClickHouseQueryBuilder": [_call(0, "distinct_on", _s("b")), ["call", 0, "limit_by", [{"k": "int", "v": 1}, _s("c")], {}], _call(0, "final")],
